@@ -14,7 +14,7 @@ PROBES = {
                 ('Assign', '1'), ('New', '01'), ('Alloc', '00'), ('Size', '1'), ('Swap', '1'), ('Help', '0'), ('Size', '0')],
     'ProbeS3': [('Copy', '1'), ('Cast', '1'), ('Cast', '0')],
 }
-LOOKUPS = 'IPMQipmqJKEH'
+LOOKUPS = 'IPMQipmqJKkEH'
 LIFE = 'NWXY'
 
 def table():
@@ -76,6 +76,7 @@ class Gen:
                     ops.append(self.lookup_ops(tids[nm], f'r.{k}', self.arity.get(cname, 1) if cname else 1, tname=nm))
                 noterm = [p for p in part if p != 'Terminal']
                 if nm != 'Terminal': ops.append([f'K {tids[nm]} {tids[r.choice(noterm)]}', f'K {tids[nm]} {tids[nm]}', f'K {tids[nm]} 0'])
+                ops.append([f'k {tids[nm]} 0', f'k {tids[nm]} {tids[r.choice(noterm)]}', f'k {tids[nm]} {tids[nm] if nm != "Terminal" else 0}'])
                 ops.append([f'J {tids[nm]} b.{r.choice(self.names)}'])
                 if nm != 'Type' and nm != 'Terminal':
                     ops.append([f'E {r.choice(["null", "dead", "bad", "nontype"])} {tids[nm]} b.{r.choice([c for c in self.names if c not in self.cached])}'])
@@ -144,7 +145,8 @@ class Gen:
                 elif y < 0.85: lines.append(f'{r.choice("Qq")} {tid} {c[0]} {r.randrange(max(kmax, 1))}')
                 elif y < 0.89: lines.append(f'R {tid}')
                 elif y < 0.93: lines.append(f'K {tid} {r.choice(tids + [0])}')
-                elif y < 0.95: lines.append(f'K {tid} {tid}')
+                elif y < 0.94: lines.append(f'K {tid} {tid}')
+                elif y < 0.95: lines.append(f'k {tid} {r.choice([tid, 0, 0, r.choice(tids)])}')
                 elif y < 0.97: lines.append(f'J {tid} b.{r.choice(self.names)}')
                 else: lines.append(f'E {r.choice(["null", "dead", "bad", "nontype", "nullcls", "nullcls"])} {tid} {r.choice([p for p in pool if p[2] not in self.cached])[0]}')
         return Case(name, lines)
@@ -170,6 +172,7 @@ class Gen:
             for p in tids:
                 groups = [self.lookup_ops(tids[p], tok, a) for tok, a in classes]     # (no M for b.Terminal: known finding)
                 groups.append([f'K {tids[p]} {tids[q]}' for q in tids] + [f'K {tids[p]} 0'])
+                groups.append([f'k {tids[p]} {tids[q]}' for q in tids] + [f'k {tids[p]} 0'])
                 groups.append([f'J {tids[p]} b.Show', f'E nontype {tids[p]} b.Show', f'E dead {tids[p]} b.Doc'])
                 r.shuffle(groups)
                 for g in groups:
@@ -331,6 +334,7 @@ class Gen:
                 lines.append((f'W {tid} L{tid}_{name}_{rd} {r.choice(sizes)} ' + ' '.join(it for c, it, m in row)).rstrip())
                 lines += self.life_lookups(tid, row, slot_cls, cold, removed, 0.8)
                 if r.random() < 0.2: lines.append(f'K {tid} {r.choice([tid, 0])}')
+                if r.random() < 0.1: lines.append(f'k {tid} {r.choice([tid, 0])}')
             y = r.random()
             if y < 0.5:
                 lines.append(f'X {tid}')
@@ -491,6 +495,7 @@ class Gen:
                 e = r.choice('IiPpMmQq')
                 lines.append(f'{e} {tid} {tok}' + (f' {kk}' if e in 'MmQq' else ''))
                 if r.random() < 0.03: lines.append(f'K {tid} {r.choice(list(T))}')
+                if r.random() < 0.03: lines.append(f'k {tid} {r.choice(list(T) + [0, 0])}')
                 if r.random() < 0.03: lines.append(f'E nullcls {tid} b.Show')
         def reset_all():
             for t in T: lines.append(f'R {t}')
